@@ -60,6 +60,8 @@ def make_probe(rng, k, shared, variant, allow_empty=True):
     for name, fn in TSV.items():
         if rng.rand() < shared['tsv_p']:
             ids = sorted(set(as_list(sc)))
+            # (rows also for ids below the highest one that curation left without spikes)
+            ids = sorted(set(ids) | set(c for c in range(int(max(ids))) if rng.rand() < 0.5))
             vals = {c: int(rng.randint(0, 100)) for c in ids if rng.rand() < 0.8}
             tsv[fn] = 'cluster_id\t%s\n' % name + ''.join('%d\t%d\n' % (c, v) for c, v in sorted(vals.items()))
             tsv_rec[name] = [[c, v] for c, v in sorted(vals.items())]
